@@ -451,6 +451,8 @@ pub trait Vec1View<T>: TIter<T> {
         V2: Vec1View<T2>,
         F: FnMut(Self::SliceOutput<'_>, V2::SliceOutput<'_>) -> OT,
     {
+        // `other` is sliced with unchecked accessors at every position of `self`
+        assert!(other.len() >= self.len(), "the second series is shorter than the first");
         let iter = (1..self.len() + 1)
             .zip(std::iter::repeat_n(0, window - 1).chain(0..self.len()))
             .map(|(end, start)| unsafe {
@@ -688,6 +690,8 @@ pub trait Vec1View<T>: TIter<T> {
         if len == 0 {
             return;
         }
+        // `other` is read with unchecked accessors at every position of `self`
+        assert!(other.len() >= len, "the second series is shorter than the first");
         // the fast paths hand out a freshly allocated buffer: never leave it unwritten
         assert!(window > 0, "window must be greater than 0");
         let window = window.min(len);
@@ -924,6 +928,8 @@ pub trait Vec1View<T>: TIter<T> {
         if len == 0 {
             return;
         }
+        // `other` is read with unchecked accessors at every position of `self`
+        assert!(other.len() >= len, "the second series is shorter than the first");
         // the fast paths hand out a freshly allocated buffer: never leave it unwritten
         assert!(window > 0, "window must be greater than 0");
         let window = window.min(len);
